@@ -81,7 +81,34 @@ Proof.
   eapply safe_bind; [apply safe_read_u8|]. intros n _.
   apply safe_if; [apply safe_fail|].
   eapply safe_bind; [apply safe_read_slice|]. intros m _.
-  eapply safe_bind; [apply read_ProofOptions_no_panic|]. intros o _. apply safe_ret. exact I.
+  eapply safe_bind; [apply read_ProofOptions_no_panic|]. intros o _.
+  repeat apply safe_if; try apply safe_fail. apply safe_ret. exact I.
+Qed.
+
+(* the reader accepts exactly what Context::new accepts (for the trace info and options it has read) *)
+Theorem read_Context_total :
+  safeP (fun c => wf_TraceInfo (ctx_trace_info c) /\ wf_ProofOptions (ctx_options c) /\ 1 <= len (ctx_modulus c) <= 255 /\
+                  Context_new (ctx_modulus c) (ctx_trace_info c) (ctx_options c) = Ok c) read_Context.
+Proof.
+  unfold read_Context. eapply safe_bind; [apply read_TraceInfo_no_panic|]. intros t Ht.
+  eapply safe_bind; [apply safe_read_u8|]. intros n Hn.
+  destruct (n =? 0) eqn:C0; [apply safe_fail|].
+  eapply (safe_bind (fun m => len m = n)).
+  { intros bs Hbs. unfold read_vec, read_slice. destruct (n <=? len bs); [|exact I].
+    unfold read_array. destruct (take (Z.to_nat n) bs) as [[h tl]|] eqn:E; [|exact I].
+    destruct (take_is_bytes _ _ _ _ E Hbs). destruct (take_length _ _ _ _ E) as [_ Hl].
+    split; auto. unfold len. rewrite Hl, Z2Nat.id by (cbv beta in Hn; lia). reflexivity. }
+  intros m Hm.
+  eapply safe_bind; [apply read_ProofOptions_no_panic|]. intros o Ho.
+  destruct (ti_length t >? 2 ^ 32 - 1) eqn:C1; [apply safe_fail|].
+  destruct ((ti_length t * po_blowup_factor o <=? usize_max) && (ti_length t * po_blowup_factor o <=? 2 ^ 32 - 1)) eqn:C2;
+    [|apply safe_fail].
+  apply safe_ret. cbn [ctx_trace_info ctx_options ctx_modulus].
+  apply andb_prop in C2. destruct C2 as [C2 C3].
+  apply Z.eqb_neq in C0. cbv beta in Hn.
+  repeat split; auto; try lia.
+  unfold Context_new, assert_. rewrite C2, C3.
+  rewrite Z.gtb_ltb in C1. apply Z.ltb_ge in C1. destruct (Z.leb_spec (ti_length t) (2 ^ 32 - 1)); [reflexivity | lia].
 Qed.
 
 Theorem read_Queries_no_panic : safeP any read_Queries.
@@ -110,7 +137,8 @@ Proof.
   unfold read_FriProof. eapply safe_bind; [apply safe_read_u8|]. intros n _.
   eapply safe_bind; [apply (safe_read_many _ _ n read_FriProofLayer_no_panic)|]. intros layers _.
   eapply safe_bind; [apply safe_read_blob|]. intros r _.
-  eapply safe_bind; [apply safe_read_u8|]. intros np _. apply safe_ret. exact I.
+  eapply safe_bind; [apply safe_read_u8|]. intros np _.
+  apply safe_if; [apply safe_fail | apply safe_ret; exact I].
 Qed.
 
 Theorem read_Proof_no_panic : safeP any read_Proof.
